@@ -313,14 +313,59 @@ func c33Rules(cfg *params.ChainConfig, b *types.Block) params.Rules {
 	return cfg.Rules(b.Number(), b.Difficulty().Sign() == 0, b.Time())
 }
 
+// c33Setup selects how the state handed to the processor is built.
+type c33Setup struct {
+	real     bool // as BlockChain.ProcessBlock does: shared cached reader + access-list prefetcher + trie prefetcher
+	threads  int  // prefetch threads of the shared reader
+	trieWarm bool // StartPrefetcher
+}
+
+func (s c33Setup) String() string {
+	if !s.real {
+		return "plain-state"
+	}
+	return fmt.Sprintf("shared-reader(threads=%d,trie-prefetcher=%v)", s.threads, s.trieWarm)
+}
+
 // c33Process runs the block on the parent state of chain with the chosen processor.
-func c33Process(chain *core.BlockChain, parent *types.Header, block *types.Block, sequential bool) (out c33Outcome) {
+func c33Process(chain *core.BlockChain, parent *types.Header, block *types.Block, sequential bool, setup c33Setup) (out c33Outcome) {
 	defer func() {
 		if r := recover(); r != nil {
 			out.err = fmt.Errorf("PANIC: %v", r)
 		}
 	}()
-	st, err := chain.StateAt(parent)
+	var (
+		st  *state.StateDB
+		err error
+	)
+	if !setup.real {
+		st, err = chain.StateAt(parent)
+	} else {
+		// Mirrors BlockChain.setupExecutionState / ProcessBlock for the BAL-driven path.
+		sdb := state.NewMPTDatabase(chain.TrieDB(), chain.CodeDB()).WithSnapshot(chain.Snapshots())
+		var base state.Reader
+		base, err = sdb.Reader(parent.Root)
+		if err == nil {
+			hint := make(map[common.Address][]common.Hash)
+			for _, acc := range *block.AccessList() {
+				slots := make([]common.Hash, 0, len(acc.StorageReads)+len(acc.StorageChanges))
+				for _, r := range acc.StorageReads {
+					slots = append(slots, r.Bytes32())
+				}
+				for _, w := range acc.StorageChanges {
+					slots = append(slots, w.Slot.Bytes32())
+				}
+				hint[acc.Address] = slots
+			}
+			reader, stop := state.NewBlockExecutionReader(base, hint, setup.threads)
+			defer stop()
+			st, err = state.NewWithReader(parent.Root, sdb, reader)
+			if err == nil && setup.trieWarm {
+				st.StartPrefetcher("chain", nil)
+				defer st.StopPrefetcher()
+			}
+		}
+	}
 	if err != nil {
 		out.err = fmt.Errorf("VERIF-HARNESS-BUG: state at parent: %w", err)
 		return
@@ -1194,15 +1239,26 @@ var c33Procs = []int{1, 2, 4, 16}
 
 func TestVerifC33Parallel(t *testing.T) {
 	st := vs.New("C33", t)
-	reps, muts := 2, 4
+	reps, muts := 3, 6
 	if vs.Thorough() {
-		reps, muts = 3, 8
+		reps, muts = 4, 12
 	}
 	oldProcs := runtime.GOMAXPROCS(0)
 	defer runtime.GOMAXPROCS(oldProcs)
 
+	logged := false
 	vs.Check(t, 1, func(rt *rapid.T) {
 		defer runtime.GOMAXPROCS(oldProcs)
+		// A schedule-dependent failure cannot be reproduced (hence not reported with its
+		// message) by rapid: the first observed failure is logged on the test itself.
+		viol := func(format string, args ...any) {
+			msg := fmt.Sprintf(format, args...)
+			if !logged {
+				logged = true
+				t.Logf("C33 FIRST OBSERVED FAILURE (seed %d; rapid re-runs the case and cannot reproduce schedule-dependent failures):\n%s", vs.Seed(), msg)
+			}
+			rt.Fatalf("%s", msg)
+		}
 		c := st.Case()
 		w := worldgen.Draw(rt, worldgen.Options{
 			Variants:  []worldgen.Variant{worldgen.VariantByName("amsterdam")},
@@ -1247,12 +1303,12 @@ func TestVerifC33Parallel(t *testing.T) {
 		runtime.GOMAXPROCS(procs)
 		for i := 0; i < n-1; i++ {
 			if err, p := c33TryInsert(parChain, b.Blocks[i]); err != nil || p != nil {
-				rt.Fatalf("C33 violated: block %d (true access list), accepted by the sequential chain, is not accepted by the parallel chain (GOMAXPROCS=%d): err=%v panic=%v\n%s", i+1, procs, err, p, describe())
+				viol("C33 violated: block %d (true access list), accepted by the sequential chain, is not accepted by the parallel chain (GOMAXPROCS=%d): err=%v panic=%v\n%s", i+1, procs, err, p, describe())
 			}
 		}
 
 		// Truth.
-		seq := c33Process(seqChain, parent, last, true)
+		seq := c33Process(seqChain, parent, last, true, c33Setup{})
 		if seq.err != nil {
 			rt.Fatalf("VERIF-HARNESS-BUG: sequential execution of the chain maker's block failed: %v\n%s", seq.err, describe())
 		}
@@ -1324,22 +1380,31 @@ func TestVerifC33Parallel(t *testing.T) {
 			procs := c33Procs[ep.Uniform(rt, "procs", len(c33Procs))]
 			noise := c33Pick(rt, "noise", []int{2, 1, 1})
 			runtime.GOMAXPROCS(procs)
+			setup := c33Setup{}
+			if c33Pick(rt, "setup", []int{1, 2}) == 1 {
+				setup = c33Setup{real: true, threads: []int{1, 4, runtime.NumCPU()}[ep.Uniform(rt, "setup-threads", 3)], trieWarm: ep.Uniform(rt, "setup-trie-prefetcher", 3) != 0}
+			}
 			stop := c33Noise(noise*2, rapid.Uint64().Draw(rt, "noise-seed"))
-			par := c33Process(parChain, parent, last, false)
+			par := c33Process(parChain, parent, last, false, setup)
 			stop()
 			c.Classf("procs:%d", procs)
-			where := fmt.Sprintf("repetition %d, GOMAXPROCS=%d, noise goroutines=%d", r, procs, noise*2)
+			if setup.real {
+				c.Class("setup:shared-reader")
+			} else {
+				c.Class("setup:plain-state")
+			}
+			where := fmt.Sprintf("repetition %d, GOMAXPROCS=%d, noise goroutines=%d, %s", r, procs, noise*2, setup)
 			if par.err != nil {
-				rt.Fatalf("C33 violated: parallel execution of a block with its true access list failed (%s): %v\n%s", where, par.err, describe())
+				viol("C33 violated: parallel execution of a block with its true access list failed (%s): %v\n%s", where, par.err, describe())
 			}
 			if d := c33Diff(par.res, seq.res); d != "" {
-				rt.Fatalf("C33 violated: parallel result differs from sequential (%s): %s\n%s", where, d, describe())
+				viol("C33 violated: parallel result differs from sequential (%s): %s\n%s", where, d, describe())
 			}
 			if par.root != seq.root {
-				rt.Fatalf("C33 violated: parallel state root %x != sequential %x (%s)\n%s", par.root, seq.root, where, describe())
+				viol("C33 violated: parallel state root %x != sequential %x (%s)\n%s", par.root, seq.root, where, describe())
 			}
 			if err := parChain.Validator().ValidateState(last, par.st, par.res, false); err != nil {
-				rt.Fatalf("C33 violated: ValidateState rejects the parallel result of the true block (%s): %v\n%s", where, err, describe())
+				viol("C33 violated: ValidateState rejects the parallel result of the true block (%s): %v\n%s", where, err, describe())
 			}
 		}
 
@@ -1418,18 +1483,18 @@ func TestVerifC33Parallel(t *testing.T) {
 				err, p := c33TryInsert(side.chain, mb)
 				where := fmt.Sprintf("%s chain, GOMAXPROCS=%d, header mode %s, structurally valid=%v", side.name, procs, mode, structural)
 				if p != nil {
-					rt.Fatalf("C33 violated: inserting a block with a mutated access list panicked (%s): %v\nmutation: %s\nmutated list:\n%s\n%s", where, p, mdesc, ml.PrettyPrint(), describe())
+					viol("C33 violated: inserting a block with a mutated access list panicked (%s): %v\nmutation: %s\nmutated list:\n%s\n%s", where, p, mdesc, ml.PrettyPrint(), describe())
 				}
 				head := side.chain.CurrentBlock()
 				if err == nil {
-					rt.Fatalf("C33 violated: block with a mutated access list was ACCEPTED (%s); head now %x root %x (true root %x)\nmutation: %s\nmutated list:\n%s\n%s",
+					viol("C33 violated: block with a mutated access list was ACCEPTED (%s); head now %x root %x (true root %x)\nmutation: %s\nmutated list:\n%s\n%s",
 						where, head.Hash(), head.Root, last.Root(), mdesc, ml.PrettyPrint(), describe())
 				}
 				if head.Hash() != parent.Hash() {
-					rt.Fatalf("C33 violated: insertion of a mutated block returned %v but moved the head to %x (%s)\nmutation: %s\n%s", err, head.Hash(), where, mdesc, describe())
+					viol("C33 violated: insertion of a mutated block returned %v but moved the head to %x (%s)\nmutation: %s\n%s", err, head.Hash(), where, mdesc, describe())
 				}
 				if mb.Hash() != last.Hash() && side.chain.HasBlockAndState(mb.Hash(), mb.NumberU64()) {
-					rt.Fatalf("C33 violated: rejected mutated block left block+state behind (%s)\nmutation: %s\n%s", where, mdesc, describe())
+					viol("C33 violated: rejected mutated block left block+state behind (%s)\nmutation: %s\n%s", where, mdesc, describe())
 				}
 				c.Classf("reject:%s:%s", side.name, c33RejectClass(err))
 			}
@@ -1444,13 +1509,13 @@ func TestVerifC33Parallel(t *testing.T) {
 		}{{"parallel", parChain}, {"sequential", seqChain}} {
 			err, p := c33TryInsert(side.chain, last)
 			if err != nil || p != nil {
-				rt.Fatalf("C33 violated: the true block is not accepted by InsertChain on the %s chain (GOMAXPROCS=%d, after %d rejected mutants): err=%v panic=%v\n%s", side.name, procs, len(mutDescs), err, p, describe())
+				viol("C33 violated: the true block is not accepted by InsertChain on the %s chain (GOMAXPROCS=%d, after %d rejected mutants): err=%v panic=%v\n%s", side.name, procs, len(mutDescs), err, p, describe())
 			}
 			if head := side.chain.CurrentBlock(); head.Hash() != last.Hash() || head.Root != seq.root {
-				rt.Fatalf("C33 violated: after inserting the true block the %s chain's head is %x root %x, want %x root %x\n%s", side.name, head.Hash(), head.Root, last.Hash(), seq.root, describe())
+				viol("C33 violated: after inserting the true block the %s chain's head is %x root %x, want %x root %x\n%s", side.name, head.Hash(), head.Root, last.Hash(), seq.root, describe())
 			}
 			if _, err := side.chain.StateAt(side.chain.CurrentBlock()); err != nil {
-				rt.Fatalf("C33 violated: committed state of the true block not readable on the %s chain: %v\n%s", side.name, err, describe())
+				viol("C33 violated: committed state of the true block not readable on the %s chain: %v\n%s", side.name, err, describe())
 			}
 		}
 
